@@ -151,6 +151,17 @@ theorem singleton_keeps_newest (sing : List Nat) (s : Rds) (rd : Rd) (ttl : Opti
 theorem singletons_generated : 5 ∈ Consts.singletons ∧ 6 ∈ Consts.singletons ∧ 1 ∉ Consts.singletons := by
   decide
 
+/-- the singleton table regenerated from `dns.rdatatype._singletons` on every run (and fed to the model the
+driver runs) is pinned to the specification, not trusted: exactly CNAME 5 (RFC 1034 §3.6.2, RFC 2181 §10.1),
+SOA 6 (RFC 1035, RFC 2181 §6.1), NXT 30 (RFC 2535 §5.1), DNAME 39 (RFC 6672 §2.4) and NSEC 47 (RFC 4035 §2.3) — the
+list documented by `is_singleton()`.  A type added to or dropped from the code's table breaks this obligation;
+so "singleton types keep only the newest record" is a statement about these five types. -/
+theorem singletons_are_rfc : Consts.singletons = [5, 6, 30, 39, 47] := by decide
+
+/-- the types whose records carry a covered type are SIG 24 and RRSIG 46 (RFC 2535 §4.1, RFC 4034 §3.1): the
+model's own literal, which `Rdataset.add` is tied to by the correspondence check with signature pools -/
+theorem sig_types_are_rfc : sigTypes = [24, 46] := rfl
+
 /-- "the set's TTL is the minimum of the TTLs merged into it", stated over histories exactly as the code
 behaves: after any sequence of operations (each possibly raising, binary ones with arbitrary or aliased
 operands) on a freshly constructed rdataset, the TTL equals the minimum of the TTLs merged (constructor
